@@ -119,7 +119,7 @@ pub struct StakeScen {
     stake_code: u64,
     stake: Option<Addr>,
     cfg: Option<Cfg>,
-    /// heights at which a transaction was attempted (probe heights of the at-height queries)
+    /// heights at which a transaction succeeded (probe heights of the at-height queries)
     heights: Vec<u64>,
     seed: u64,
 }
@@ -213,11 +213,12 @@ impl StakeScen {
 
     fn header(&self, seed: u64, trace: u64) -> String {
         format!(
-            "scenario cw4stake seed={} trace={} height={} time={} pool={} bal={} token={} ftoken={} hooks_ok={} hook_bad={}",
+            "scenario cw4stake seed={} trace={} height={} time={} sdenom={} pool={} bal={} token={} ftoken={} hooks_ok={} hook_bad={}",
             seed,
             trace,
             START_HEIGHT,
             START_TIME,
+            STAKE_DENOM,
             self.pool.iter().map(|a| a.to_string()).collect::<Vec<_>>().join(","),
             self.pool.iter().zip(self.init_bal.iter()).map(|(a, b)| format!("{a}:{b}")).collect::<Vec<_>>().join(","),
             self.token,
@@ -385,13 +386,13 @@ impl StakeScen {
     fn tx(&mut self, sender: &Addr, msg: CosmosMsg) -> String {
         LOG.with(|l| l.borrow_mut().clear());
         let h = self.app.block_info().height;
-        if !self.heights.contains(&h) {
-            self.heights.push(h);
-        }
         let app = &mut self.app;
         let r = catch(|| app.execute(sender.clone(), msg));
         match r {
             Some(Ok(_)) => {
+                if !self.heights.contains(&h) {
+                    self.heights.push(h);
+                }
                 let msgs = LOG.with(|l| l.borrow().join("||"));
                 format!("> ok msgs={msgs}")
             }
@@ -445,7 +446,7 @@ impl StakeScen {
             5 => "t0".to_string(),
             6 | 7 => format!("t{}", 1 + rng.below(10)),
             8 | 9 => "t20".to_string(),
-            10 => if rng.chance(1, 2) { format!("h{}", u64::MAX) } else { format!("t{}", u64::MAX / 1_000_000_000) },
+            10 if rng.chance(1, 3) => if rng.chance(1, 2) { format!("h{}", u64::MAX) } else { format!("t{}", u64::MAX / 1_000_000_000) },
             _ => "h3".to_string(),
         };
         let admin = match rng.below(20) {
@@ -485,12 +486,15 @@ impl StakeScen {
                 }
             }
         };
-        // mostly affordable amounts
-        if cand > b && rng.chance(4, 5) && b > 0 {
-            match rng.below(3) {
-                0 => b,
-                1 => 1 + rng.u128() % b,
-                _ => (rng.below(5000) as u128).min(b),
+        // mostly affordable amounts whose weight still fits u64
+        let room = if t == 0 { u128::MAX } else { t.saturating_mul(TWO64).saturating_sub(1).saturating_sub(s) };
+        let cap = b.min(room);
+        if cand > cap && rng.chance(5, 6) && cap > 0 {
+            match rng.below(4) {
+                0 => cap,
+                1 => 1 + rng.u128() % cap,
+                2 => m.saturating_add(rng.below(500) as u128).min(cap),
+                _ => (rng.below(5000) as u128).min(cap),
             }
         } else {
             cand
@@ -502,7 +506,7 @@ impl StakeScen {
         let s = self.staked(snd);
         let m = cfg.min_bond.max(1);
         match rng.below(12) {
-            0 => 0,
+            0 if rng.chance(1, 2) => 0,
             1 => 1.min(s),
             2 => s,
             3 => s.saturating_add(1),
@@ -556,7 +560,7 @@ impl Scenario for StakeScen {
                 4 => 20_000 + rng.below(10_000) as u128,
                 5 => 100 + rng.below(5000) as u128,
                 6 => rng.u128() >> 4,
-                _ => 0,
+                _ => if rng.chance(1, 2) { 0 } else { 50_000 },
             })
             .collect();
         self.setup(p, bal);
@@ -616,7 +620,9 @@ impl Scenario for StakeScen {
         }
         let snd = rng.pick(&self.pool).clone();
         if r < 46 {
-            // bond through the configured path (mostly)
+            // bond through the configured path (mostly), mostly by actors who own tokens
+            let rich: Vec<Addr> = self.pool.iter().filter(|a| self.bal(a) > 0).cloned().collect();
+            let snd = if !rich.is_empty() && rng.chance(5, 6) { rng.pick(&rich).clone() } else { snd };
             let amt = self.gen_bond_amount(rng, &snd);
             let right_path = rng.chance(9, 10);
             return if cfg.native == right_path {
@@ -650,7 +656,20 @@ impl Scenario for StakeScen {
         }
         if r < 80 {
             let holders: Vec<Addr> = self.pool.iter().filter(|a| !self.claims(a).is_empty()).cloned().collect();
-            let snd = if !holders.is_empty() && rng.chance(5, 6) { rng.pick(&holders).clone() } else { snd };
+            let blk = self.app.block_info();
+            let mature: Vec<Addr> =
+                holders.iter().filter(|a| self.claims(a).iter().any(|(amt, e)| *amt > 0 && e.is_expired(&blk))).cloned().collect();
+            if mature.is_empty() && !holders.is_empty() && rng.chance(1, 2) {
+                // nothing can be claimed yet: let time pass instead
+                return self.gen_env(rng);
+            }
+            let snd = if !mature.is_empty() && rng.chance(3, 4) {
+                rng.pick(&mature).clone()
+            } else if !holders.is_empty() && rng.chance(5, 6) {
+                rng.pick(&holders).clone()
+            } else {
+                snd
+            };
             return format!("exec {snd} claim");
         }
         if r < 84 {
